@@ -439,3 +439,162 @@ Section MMX.
   Theorem minimax_equiv s n : res_equiv (minimax s v n) (minimax s v' n).
   Proof. rewrite !minimax_unfold. apply gnbz_equiv; [apply mscores_nodup|apply mscores_perm]. Qed.
 End MMX.
+
+(* ---------------------------------------------------------------- schulze: permuted dictionary AND any two iteration orders *)
+Section SCHU.
+  Variables v v' : pvotes.
+  Hypothesis Hnd : NoDup (map fst v).
+  Hypothesis Hnn : forall p n, In (p, n) v -> 0 <= n.
+  Hypothesis Hp : Permutation v v'.
+
+  Lemma nn_perm : forall p n, In (p, n) v' -> 0 <= n.
+  Proof. intros p n H. apply (Hnn p n). apply (Permutation_in _ (Permutation_sym Hp) H). Qed.
+
+  Lemma d0_perm a b : d0 v' a b = d0 v a b.
+  Proof. unfold d0. rewrite !(pget0_perm v v' Hnd Hp). reflexivity. Qed.
+  Lemma reach_perm s a b : reach v s a b -> reach v' s a b.
+  Proof. induction 1 as [a b H|a m b H _ IH]; [apply reach_one|eapply reach_step; [|exact IH]]; rewrite d0_perm; exact H. Qed.
+  Lemma reach_perm' s a b : reach v' s a b -> reach v s a b.
+  Proof. induction 1 as [a b H|a m b H _ IH]; [apply reach_one|eapply reach_step; [|exact IH]]; rewrite <- d0_perm; exact H. Qed.
+
+  Lemma wp_le (u u' : pvotes) (o o' : list C) a b : NoDup (map fst u) -> NoDup (map fst u') -> (forall p n, In (p, n) u' -> 0 <= n) ->
+    (forall s x y, reach u s x y -> reach u' s x y) -> incl (candidates u') o' -> a <> b ->
+    pget0 (widest_paths u o) (a, b) <= pget0 (widest_paths u' o') (a, b).
+  Proof.
+    intros N N' NN HR Hi Hab. pose proof (P_nonneg0 u' N' NN o' (a, b)) as H0.
+    destruct (Z_le_gt_dec (pget0 (widest_paths u o) (a, b)) 0) as [Hz|Hpos]; [lia|].
+    apply (wp_complete u' N' o' a b _ Hi); [lia|exact Hab|]. apply HR. apply (wp_sound u N o). lia.
+  Qed.
+
+  Theorem wp_get_perm o o' p : incl (candidates v) o -> incl (candidates v') o' ->
+    pget0 (widest_paths v' o') p = pget0 (widest_paths v o) p.
+  Proof.
+    intros Hi Hi'. destruct p as [a b]. pose proof (pv_nodup' v v' Hnd Hp) as Hnd'.
+    destruct (Pos.eq_dec a b) as [->|Hab]; [rewrite (wp_diag v Hnd Hnn), (wp_diag v' Hnd' nn_perm); reflexivity|].
+    apply Z.le_antisymm.
+    - apply wp_le; try assumption. intros s x y. apply reach_perm'.
+    - apply wp_le; try assumption; [exact nn_perm|]. intros s x y. apply reach_perm.
+  Qed.
+
+  Lemma sscores_keys (u : pvotes) o : NoDup (map fst u) -> (forall p n, In (p, n) u -> 0 <= n) -> NoDup (map fst (sscores u o)).
+  Proof.
+    intros N NN. rewrite (sscores_canonical u N NN o), map_map. simpl. rewrite map_id. apply candidates_NoDup.
+  Qed.
+
+  Theorem sscores_perm o o' : incl (candidates v) o -> incl (candidates v') o' -> Permutation (sscores v o) (sscores v' o').
+  Proof.
+    intros Hi Hi'. pose proof (pv_nodup' v v' Hnd Hp) as Hnd'.
+    rewrite (sscores_canonical v Hnd Hnn o), (sscores_canonical v' Hnd' nn_perm o').
+    eapply Permutation_trans; [apply Permutation_map, (cands_perm v v' Hp)|].
+    erewrite map_ext; [apply Permutation_refl|]. intros c. simpl. do 2 f_equal. apply Permutation_length.
+    apply NoDup_Permutation; try (apply opponents_NoDup, P_nodup; assumption).
+    intros y. rewrite (opponents_spec _ (P_nodup v Hnd o) (P_nonneg v Hnd Hnn o)).
+    rewrite (opponents_spec _ (P_nodup v' Hnd' o') (P_nonneg v' Hnd' nn_perm o')).
+    unfold beats. rewrite !(wp_get_perm o o' _ Hi Hi'). reflexivity.
+  Qed.
+
+  Theorem schulze_sim o o' n : incl (candidates v) o -> incl (candidates v') o' ->
+    Forall2 (res_relz (sscores v o) (sscores v' o')) (schulze v o n) (schulze v' o' n).
+  Proof.
+    intros Hi Hi'. rewrite !schulze_unfold. apply (gnbz_sim (sscores v o) (sscores v' o')); [apply sscores_keys; assumption|apply sscores_perm; assumption].
+  Qed.
+  Theorem schulze_equiv o o' n : incl (candidates v) o -> incl (candidates v') o' -> res_equiv (schulze v o n) (schulze v' o' n).
+  Proof.
+    intros Hi Hi'. rewrite !schulze_unfold. apply (gnbz_equiv (sscores v o) (sscores v' o')); [apply sscores_keys; assumption|apply sscores_perm; assumption].
+  Qed.
+End SCHU.
+
+(* ---------------------------------------------------------------- kemeny: the same answer (or the same refusal) *)
+Lemma row_ext (u u' : pvotes) : (forall p, pget0 u' p = pget0 u p) -> forall x t, row u' x t = row u x t.
+Proof. intros E x t. induction t as [|a t IH]; [reflexivity|]. rewrite !row_cons, E, IH. reflexivity. Qed.
+Lemma kemeny_score_ext (u u' : pvotes) : (forall p, pget0 u' p = pget0 u p) -> forall q, kemeny_score u' q = kemeny_score u q.
+Proof. intros E q. induction q as [|a t IH]; [reflexivity|]. rewrite !kemeny_score_cons, (row_ext u u' E), IH. reflexivity. Qed.
+
+Lemma kemeny_max_ext (u u' : pvotes) p : Permutation (candidates u) (candidates u') -> (forall q, pget0 u' q = pget0 u q) ->
+  kemeny_max u p -> kemeny_max u' p.
+Proof.
+  intros Pc E [P M]. split; [eapply Permutation_trans; eassumption|]. intros q Hq. rewrite !(kemeny_score_ext u u' E). apply M.
+  eapply Permutation_trans; [exact Hq|apply Permutation_sym, Pc].
+Qed.
+
+Lemma kemeny_transfer (u u' : pvotes) n r : Permutation (candidates u) (candidates u') -> (forall q, pget0 u' q = pget0 u q) ->
+  kemeny u n = CR_ok r -> kemeny u' n = CR_ok r.
+Proof.
+  intros Pc E H. destruct (kemeny_defining u n r H) as (p & Hm & H0 & -> & Hall). apply kemeny_complete.
+  - apply (kemeny_max_ext u u' p Pc E Hm).
+  - rewrite (kemeny_score_ext u u' E). exact H0.
+  - intros q Hq. apply Hall. apply (kemeny_max_ext u' u q (Permutation_sym Pc) (fun x => eq_sym (E x)) Hq).
+Qed.
+
+Theorem kemeny_perm v v' n : NoDup (map fst v) -> Permutation v v' -> kemeny v' n = kemeny v n.
+Proof.
+  intros Hnd Hp. pose proof (cands_perm v v' Hp) as Pc. pose proof (pget0_perm v v' Hnd Hp) as E.
+  destruct (kemeny_cases v n) as [(p & _ & H)|H].
+  - rewrite H. apply (kemeny_transfer v v' n _ Pc E H).
+  - destruct (kemeny_cases v' n) as [(p & _ & H')|H']; [|congruence].
+    pose proof (kemeny_transfer v' v n _ (Permutation_sym Pc) (fun x => eq_sym (E x)) H') as H''. congruence.
+Qed.
+
+(* ---------------------------------------------------------------- the Smith set: the same members *)
+Lemma firstn_nodup {X} k : forall l : list X, NoDup l -> NoDup (firstn k l).
+Proof.
+  induction k as [|k IH]; intros l N; [constructor|]. destruct l as [|x l]; [constructor|]. inversion N as [|? ? Hx Hn]; subst. simpl.
+  constructor; [|apply IH, Hn]. intros H. apply Hx. rewrite <- (firstn_skipn k l). apply in_or_app. left. exact H.
+Qed.
+
+Lemma complete_small (u : pvotes) : (length (candidates u) < 2)%nat -> complete u = [].
+Proof.
+  unfold complete. destruct (candidates u) as [|c [|c' t]]; cbn [length flat_map app]; intros H; try lia; [reflexivity|].
+  unfold ceqb. rewrite Pos.eqb_refl. reflexivity.
+Qed.
+Lemma smith_small (u : pvotes) t : (length (candidates u) < 2)%nat -> smith_schwartz u t = [].
+Proof. intros H. unfold smith_schwartz. rewrite (complete_small u H). reflexivity. Qed.
+
+Theorem smith_perm v v' : NoDup (map fst v) -> (forall p n, In (p, n) v -> 0 <= n) -> Permutation v v' ->
+  Permutation (smith_schwartz v true) (smith_schwartz v' true).
+Proof.
+  intros Hnd Hnn Hp. pose proof (cands_perm v v' Hp) as Pc. pose proof (Permutation_length Pc) as Hlen.
+  destruct (le_lt_dec 2 (length (candidates v))) as [H2|Hs].
+  2:{ rewrite (smith_small v true Hs), (smith_small v' true ltac:(lia)). constructor. }
+  assert (H2' : (2 <= length (candidates v'))%nat) by lia.
+  pose proof (nn_perm v v' Hnn Hp) as Hnn'.
+  destruct (smith_dominating v H2) as [Ne Dom]. destruct (smith_dominating v' H2') as [Ne' Dom'].
+  assert (ND : forall u, NoDup (smith_schwartz u true)).
+  { intros u. destruct (smith_schwartz_closed u true) as (-> & _). apply firstn_nodup, order_nodup. }
+  apply NoDup_Permutation; try apply ND. intros x. split.
+  - apply (smith_minimal v Hnn H2 _ Ne'). intros a b Ha Hb Hnb. unfold beats. rewrite <- !(pget0_perm v v' Hnd Hp).
+    apply Dom'; [exact Ha|apply (cands_in v v' Hp), Hb|exact Hnb].
+  - apply (smith_minimal v' Hnn' H2' _ Ne). intros a b Ha Hb Hnb. unfold beats. rewrite !(pget0_perm v v' Hnd Hp).
+    apply Dom; [exact Ha|apply (cands_in v v' Hp), Hb|exact Hnb].
+Qed.
+
+(* the Schwartz routine (ties = false) is NOT order independent: two unbeaten candidates that tie each other
+   (known finding C10-schwartz-order) *)
+Definition schwartz_w1 : pvotes := mk_pv [(1,2,1);(2,1,1);(1,3,2);(3,1,0);(2,3,2);(3,2,0)].
+Definition schwartz_w2 : pvotes := mk_pv [(2,1,1);(1,2,1);(2,3,2);(3,2,0);(1,3,2);(3,1,0)].
+
+Definition list_perm_b (a b : pvotes) : bool :=
+  Nat.eqb (length a) (length b) &&
+  forallb (fun x : pair * Z => existsb (fun y : pair * Z => peqb (fst x) (fst y) && (snd x =? snd y)) b) a.
+
+Lemma nodup_incl_perm (a b : pvotes) : NoDup a -> NoDup b -> length a = length b -> incl a b -> Permutation a b.
+Proof.
+  intros Na Nb L I. apply NoDup_Permutation; try assumption. intros x. split; [apply I|].
+  apply (NoDup_length_incl Na); [lia|exact I].
+Qed.
+
+Lemma list_perm_b_sound a b : nodup_keys_b a = true -> nodup_keys_b b = true -> list_perm_b a b = true -> Permutation a b.
+Proof.
+  intros Na Nb H. unfold list_perm_b in H. apply andb_true_iff in H. destruct H as [HL HI]. apply Nat.eqb_eq in HL.
+  apply nodup_incl_perm; try (apply (NoDup_map_inv fst), nodup_keys_b_sound; assumption); [exact HL|].
+  intros [p n] Hx. rewrite forallb_forall in HI. specialize (HI _ Hx). apply existsb_exists in HI. destruct HI as ([q m] & Hy & E).
+  simpl in E. apply andb_true_iff in E. destruct E as [E1 E2]. apply peqb_eq in E1. apply Z.eqb_eq in E2. subst. exact Hy.
+Qed.
+
+Theorem schwartz_order_refuted : exists v v', NoDup (map fst v) /\ (forall p n, In (p, n) v -> 0 <= n) /\ Permutation v v' /\
+  exists c, In c (smith_schwartz v false) /\ ~ In c (smith_schwartz v' false).
+Proof.
+  exists schwartz_w1, schwartz_w2. split; [apply nodup_keys_b_sound; vm_compute; reflexivity|].
+  split; [apply nonneg_b_sound; vm_compute; reflexivity|]. split; [apply list_perm_b_sound; vm_compute; reflexivity|].
+  exists 1%positive. vm_compute. split; [left; reflexivity|]. intros [H|[]]. discriminate.
+Qed.
